@@ -1287,10 +1287,23 @@ def oracle_sp():
     return _oracle_sp["sp"]
 
 
-def _fingerprints():
-    from harness import c03
+_FP = {}
+_FP_KEYS = {"idp": 1, "idp2": 2, "idpenc": 3, "other": 4, "sp": 5, "attacker": 6}
 
-    return c03.fingerprints()
+
+def _fingerprints():
+    """sha1 of the DER form of every fixture certificate -> key number (own copy: no dependency on harness.c03)."""
+    if not _FP:
+        from cryptography import x509
+        from cryptography.hazmat.primitives import serialization
+
+        from harness import fixtures
+
+        for n, i in _FP_KEYS.items():
+            with open(fixtures.cert_path(n), "rb") as f:
+                der = x509.load_pem_x509_certificate(f.read()).public_bytes(serialization.Encoding.DER)
+            _FP[hashlib.sha1(der).hexdigest()] = i
+    return _FP
 
 
 def run_sp(sp, xml):
